@@ -343,6 +343,177 @@ pub fn mild_policy() -> RegexManagerDiscardPolicy {
     RegexManagerDiscardPolicy { cleanup_interval: Duration::from_nanos(1), discard_unused_time: Duration::from_micros(500) }
 }
 
+// ---------------------------------------------------------------- extreme and changing discard policies
+/// The durations both fields of a `RegexManagerDiscardPolicy` are drawn from, in increasing order.
+pub const EXTREME_NAMES: &[&str] = &["0", "1ns", "1ms", "1s", "1h", "u64::MAX/2 s", "Duration::MAX"];
+pub fn extreme(i: usize) -> Duration {
+    match i {
+        0 => Duration::from_secs(0),
+        1 => Duration::from_nanos(1),
+        2 => Duration::from_millis(1),
+        3 => Duration::from_secs(1),
+        4 => Duration::from_secs(3600),
+        5 => Duration::from_secs(u64::MAX / 2),
+        _ => Duration::MAX,
+    }
+}
+
+/// One policy change of a policy run.  Phase k covers the queries k*per .. (k+1)*per of every thread.
+#[derive(Clone, Debug)]
+pub struct Phase {
+    /// index into EXTREME_NAMES of cleanup_interval / discard_unused_time
+    pub ci: usize,
+    pub du: usize,
+    /// the policy is set twice in a row (two calls, no query of the setter in between)
+    pub twice: bool,
+    /// the setter sets the policy once more in the middle of its slice of queries
+    pub mid: bool,
+    /// sequential walk only: through `Engine::set_regex_discard_policy(&mut self)` instead of
+    /// `Blocker::set_regex_discard_policy(&self)`
+    pub via_engine: bool,
+}
+impl Phase {
+    pub fn policy(&self) -> RegexManagerDiscardPolicy {
+        RegexManagerDiscardPolicy { cleanup_interval: extreme(self.ci), discard_unused_time: extreme(self.du) }
+    }
+    pub fn describe(&self) -> String {
+        format!(
+            "cleanup_interval={} discard_unused_time={}{}{}",
+            EXTREME_NAMES[self.ci.min(6)],
+            EXTREME_NAMES[self.du.min(6)],
+            if self.twice { " (set twice in a row)" } else { "" },
+            if self.mid { " (set again between the setter's queries)" } else { "" }
+        )
+    }
+}
+
+#[derive(Clone, Debug)]
+pub struct PolicyPlan {
+    pub script: Vec<Phase>,
+    /// queries of every thread per phase
+    pub per: usize,
+}
+
+/// A closed walk through all 49 ordered pairs (a, b) of the 7 durations, every pair once: 50
+/// values v0..v49 such that every "b after a" (shorter after longer, longer after shorter, the same
+/// twice) occurs exactly once as (v_i, v_i+1).  Randomised Hierholzer on the complete digraph with loops.
+pub fn euler_walk(r: &mut XRng) -> Vec<usize> {
+    const N: usize = 7;
+    let mut out: Vec<Vec<usize>> = (0..N)
+        .map(|_| {
+            let mut v: Vec<usize> = (0..N).collect();
+            for i in (1..N).rev() {
+                let j = r.below(i + 1);
+                v.swap(i, j);
+            }
+            v
+        })
+        .collect();
+    let mut stack = vec![r.below(N)];
+    let mut walk = vec![];
+    while let Some(&v) = stack.last() {
+        match out[v].pop() {
+            Some(w) => stack.push(w),
+            None => {
+                walk.push(v);
+                stack.pop();
+            }
+        }
+    }
+    walk.reverse();
+    walk
+}
+
+/// The script of a policy run, from the run seed.  `full`: 50 phases, both fields walk through all
+/// 49 ordered pairs of durations (independent walks); otherwise `n` random phases.
+pub fn policy_plan(seed: u64, queries: usize, full: bool, per: usize) -> PolicyPlan {
+    let mut r = XRng::new(seed ^ 0x00D1_5CA2_D000);
+    let per = per.max(1);
+    let n = (queries / per).max(1);
+    let (cis, dus): (Vec<usize>, Vec<usize>) = if full {
+        (euler_walk(&mut r), euler_walk(&mut r))
+    } else {
+        ((0..n).map(|_| r.below(7)).collect(), (0..n).map(|_| r.below(7)).collect())
+    };
+    let script = (0..n)
+        .map(|k| Phase { ci: cis[k % cis.len()], du: dus[k % dus.len()], twice: r.chance(1, 4), mid: r.chance(1, 3), via_engine: r.chance(1, 2) })
+        .collect();
+    PolicyPlan { script, per }
+}
+
+fn panic_text(p: Box<dyn std::any::Any + Send>) -> String {
+    if let Some(s) = p.downcast_ref::<&str>() {
+        s.to_string()
+    } else if let Some(s) = p.downcast_ref::<String>() {
+        s.clone()
+    } else {
+        "panic".to_string()
+    }
+}
+
+/// Set the policy of one phase on an exclusively owned engine; Err = the call panicked.
+pub fn set_phase_policy(e: &mut Engine, ph: &Phase) -> Result<(), String> {
+    let calls = if ph.twice { 2 } else { 1 };
+    for _ in 0..calls {
+        let r = std::panic::catch_unwind(std::panic::AssertUnwindSafe(|| {
+            if ph.via_engine {
+                e.set_regex_discard_policy(ph.policy())
+            } else {
+                e.verif_blocker().set_regex_discard_policy(ph.policy())
+            }
+        }));
+        if let Err(p) = r {
+            return Err(format!("set_regex_discard_policy({}) via {} panicked: {}", ph.describe(), if ph.via_engine { "Engine (&mut self)" } else { "Blocker (&self)" }, panic_text(p)));
+        }
+    }
+    Ok(())
+}
+
+/// The sequential walk of a policy run on ONE thread: for every phase set the policy (before any
+/// query for phase 0, between queries afterwards), then answer the phase's slice of every thread's
+/// list.  Returns the answers per thread list (same indexing as `Workload::queries`; a panic is the
+/// answer "PANIC: ..") and the panics of the policy calls.  `on_op(Some(what))` is called before
+/// every policy call and every slice of queries, `on_op(None)` when it has returned (watchdog hook).
+pub fn policy_sequential(e: &mut Engine, w: &Workload, plan: &PolicyPlan, on_op: &mut dyn FnMut(Option<String>)) -> (Vec<Vec<String>>, Vec<String>) {
+    let mut answers: Vec<Vec<String>> = w.queries.iter().map(|qs| Vec::with_capacity(qs.len())).collect();
+    let mut set_panics = vec![];
+    let n_q = w.queries.iter().map(|q| q.len()).max().unwrap_or(0);
+    let mut k = 0;
+    while k * plan.per < n_q {
+        let ph = &plan.script[k.min(plan.script.len() - 1)];
+        let via = if ph.via_engine { "Engine (&mut self)" } else { "Blocker (&self)" };
+        let mut set = |e: &mut Engine, at: &str, set_panics: &mut Vec<String>, on_op: &mut dyn FnMut(Option<String>)| {
+            on_op(Some(format!("sequential walk, phase {}: set_regex_discard_policy({}) via {} {}", k, ph.describe(), via, at)));
+            if let Err(m) = set_phase_policy(e, ph) {
+                set_panics.push(format!("phase {} {}: {}", k, at, m));
+            }
+            on_op(None);
+        };
+        set(e, if k == 0 { "before the first query" } else { "between queries" }, &mut set_panics, on_op);
+        for (ti, qs) in w.queries.iter().enumerate() {
+            let lo = (k * plan.per).min(qs.len());
+            let hi = ((k + 1) * plan.per).min(qs.len());
+            let mid = if ph.mid && ti == 0 && hi > lo + 1 { lo + (hi - lo) / 2 } else { hi };
+            on_op(Some(format!("sequential walk, phase {}: queries {}..{} of thread list {} under policy {}", k, lo, hi, ti, ph.describe())));
+            answers[ti].extend(run_sequential(e, &qs[lo..mid], true).1);
+            on_op(None);
+            if mid < hi {
+                set(e, "between the queries of one slice", &mut set_panics, on_op);
+                on_op(Some(format!("sequential walk, phase {}: queries {}..{} of thread list {} under policy {}", k, mid, hi, ti, ph.describe())));
+                answers[ti].extend(run_sequential(e, &qs[mid..hi], true).1);
+                on_op(None);
+            }
+        }
+        k += 1;
+    }
+    (answers, set_panics)
+}
+
+/// Chained digest of a list of canonical answers (what `run_sequential` computes on the fly).
+pub fn digest_of(answers: &[String]) -> u64 {
+    answers.iter().fold(FNV0, |h, a| fnv(h, a))
+}
+
 pub fn build_engine(w: &Workload) -> Engine {
     let mut e = Engine::from_rules_parametrised(w.rules.iter(), ParseOptions::default(), true, w.optimize);
     // (Resource::simple is test-only; contents are base64 of "(function() {})()", "GIF89a",
